@@ -332,6 +332,66 @@ def describe(case):
     return {"leaf": fmt_leaves(leaves), "up": " then ".join(u[0] + _fmt_spec(u) for u in ups), "down": down[0] + _fmt_spec(down)}
 
 
+# ---------------------------------------------------------------- user-defined operations are never merged or elided
+
+_REV = None
+
+
+def reverse_operation():
+    global _REV
+    if _REV is None:
+        import dataclasses
+
+        from lsst.daf.relation import Reordering
+
+        @dataclasses.dataclass(frozen=True)
+        class ReverseRows(Reordering):
+            def __str__(self):
+                return "reverse"
+
+        _REV = ReverseRows
+    return _REV
+
+
+def custom_operation_probe(g, targets, universe, cols, stats):
+    """A user-defined Reordering (not idempotent: it reverses the rows) next to every built-in operation and next to
+    itself: nothing the library knows allows merging it with a neighbour or dropping it, so every application must leave
+    its own node in the tree and leave the tree below untouched."""
+    from vf.core.prog import lib_nodes
+
+    Rev = reverse_operation()
+    rows = targets[0]
+    leaf = ("L0", cols, rows, 1, "data", (len(rows), len(rows)), "plain")
+    env = Env((leaf,))
+    try:
+        base = env.leafrels[0]
+
+        def count(rel):
+            return sum(1 for n in lib_nodes(rel) if isinstance(getattr(n, "operation", None), Rev))
+
+        r1 = Rev().apply(base)
+        r2 = Rev().apply(r1)
+        if count(r1) != 1 or count(r2) != 2 or r2.target is not r1:
+            raise Violation("custom-operation-elided", f"a user-defined Reordering applied twice gives {r2} (applied once: {r1})")
+        for spec in g:
+            if not valid_on(norm(spec, frozenset(cols)), frozenset(cols)):
+                continue
+            op = lib_op(norm(spec, frozenset(cols)), frozenset(cols))
+            what = f"{spec[0]}{_fmt_spec(spec)}"
+            try:
+                after = op.apply(r1)
+                before = Rev().apply(op.apply(base))
+            except Exception as e:
+                raise Violation("apply-raised", f"{what} next to a user-defined Reordering raised {type(e).__name__}: {e}", exc=e)
+            if count(after) != 1:
+                raise Violation("custom-operation-elided", f"{what} applied to reverse(L0) gives {after}: the user-defined operation is gone")
+            if count(before) != 1 or before.target is not op.apply(base) and str(before.target) != str(op.apply(base)):
+                raise Violation("custom-operation-elided", f"reverse applied to {op.apply(base)} gives {before}")
+            stats.c["custom-operation-neighbours"] += 1
+    finally:
+        env.close()
+
+
 # ---------------------------------------------------------------- exhaustive slice space
 
 
@@ -364,6 +424,8 @@ def exhaustive(tier, stats, shard, nshards, run):
         ((1, 1, 0), (0, 1, 1), (1, 1, 0), (0, 0, 1), (0, 1, 1)),
     ]
     idx = 0
+    if shard == 0:
+        custom_operation_probe(g, targets, UNIVERSE, (A, B, C), stats)
     for rows in targets:
         leaf = ("L0", (A, B, C), rows, 1, "data", (len(rows), len(rows)), "plain")
         for up in g:
